@@ -62,6 +62,10 @@ class Session:
         self.log = []        # transcript in driver order: ("send"|"recv"|"err", t, text)
         self.q = queue.Queue()
         self.lock = threading.Lock()
+        self.cv = threading.Condition(self.lock)
+        self.best_count = 0        # maintained by the reader thread: no rescanning of the transcript
+        self.ready_count = 0
+        self.eof = False
         self.threads = [threading.Thread(target=self._reader, args=(self.p.stdout, "recv"), daemon=True),
                         threading.Thread(target=self._reader, args=(self.p.stderr, "err"), daemon=True)]
         for t in self.threads:
@@ -71,12 +75,21 @@ class Session:
         for line in stream:
             line = line.rstrip("\n")
             t = time.time() - self.t0
-            with self.lock:
+            with self.cv:
                 (self.out if kind == "recv" else self.err).append((t, line))
                 self.log.append((kind, t, line))
+                if kind == "recv":
+                    if line.startswith("bestmove"):
+                        self.best_count += 1
+                    elif line == "readyok":
+                        self.ready_count += 1
+                    self.cv.notify_all()
             if kind == "recv":
                 self.q.put((t, line))
         if kind == "recv":
+            with self.cv:
+                self.eof = True
+                self.cv.notify_all()
             self.q.put((time.time() - self.t0, None))
 
     def send(self, line):
@@ -105,6 +118,19 @@ class Session:
                 return None
             if pred(line):
                 return (t, line)
+
+    def wait_until(self, pred, timeout):
+        """Block (no polling) until pred() holds, the stream ends, or the timeout expires; pred is evaluated under the lock."""
+        end = time.time() + timeout
+        with self.cv:
+            while not pred():
+                if self.eof:
+                    return pred()
+                left = end - time.time()
+                if left <= 0:
+                    return False
+                self.cv.wait(left)
+            return True
 
     def drain(self):
         while True:
